@@ -86,6 +86,17 @@ func genC04(seed uint64, idx int, tier string) *Scenario {
 			class = "datagrams-over-limit"
 		}
 	}
+	if (pn == "smtp" || pn == "ftp") && r.Chance(0.25) {
+		// the session is upgraded to TLS in band first (SMTP STARTTLS / FTP AUTH TLS, lock-step as the protocols
+		// demand); the dialogue then runs inside TLS, one record per segment: the same commands must be captured
+		if pn == "smtp" {
+			a.Ops = append(a.Ops, SendOp([]byte("EHLO tlsprelude.invalid\r\n"), nil, "prelude"), SendOp([]byte("STARTTLS\r\n"), nil, "prelude"))
+		} else {
+			a.Ops = append(a.Ops, SendOp([]byte("AUTH TLS\r\n"), nil, "prelude"))
+		}
+		a.Ops = append(a.Ops, Op{K: "starttls"})
+		class += "+tls"
+	}
 	for i, c := range cmds {
 		op := SendOp(c.Data, nil, c.Note)
 		op.Exp = expJSON(c.Want)
@@ -263,6 +274,13 @@ func runC04(t *testing.T, sc *Scenario) Result {
 	if obsV.BootErr != "" {
 		res.Violate("infra", "boot", obsV.BootErr)
 		return res
+	}
+	if e := obsV.Extra["tls-handshake-error"]; e != nil {
+		res.Violate("tls-upgrade-failed", pn, fmt.Sprintf("the service accepted the upgrade command but the TLS handshake failed: %v", e))
+		return res
+	}
+	if strings.Contains(sc.Class, "+tls") {
+		res.probe("dialogues-inside-tls", 1)
 	}
 	base := baselineOf(sc)
 	obsB := RunScenario(t, base, nil)
